@@ -699,7 +699,7 @@ pub fn run(run: &Run) {
         (0..2usize).into_par_iter().for_each(|ri| {
             let mk = || Handshake::new(if ri == 0 { PeerType::Server } else { PeerType::Client });
             let _ = &roles;
-            let mut try_bytes = |bytes: &[u8], label: &str| {
+            let try_bytes = |bytes: &[u8], label: &str| {
                 for mode in 0..3 {
                     let mut h = mk();
                     let pieces: Vec<&[u8]> = match mode {
